@@ -100,11 +100,17 @@ def Cert.shiftDetOk (t : Table) : Bool :=
   t.forStates fun _ st => (List.range st.actions.size).all fun a =>
     decide (((st.actions.getD a []).filter isShift).length ≤ 1)
 
+/-- the augmented layout symbol (if any) occurs in no right-hand side -/
+def Cert.auglOk (g : Grammar) : Bool :=
+  match g.auglIdx with
+  | none => true
+  | some x => g.prods.toList.all fun pr => !pr.rhs.contains x
+
 /-- the completeness certificate for GLR tables: `Cert.complete` without "at most one action per cell", with
-    the right-nulled reduce entries demanded and shifts deterministic -/
+    the right-nulled reduce entries demanded, shifts deterministic, augmented symbols in no right-hand side -/
 def Cert.completeRN (g : Grammar) (t : Table) : Bool :=
   let c := Canon.mkCtx g
   Cert.firstOk g c && Cert.closureOk g c t && Cert.transOk g t && Cert.reduceRNOk g t c.nul &&
-  Cert.grammarOk g t && Cert.shiftDetOk t
+  Cert.grammarOk g t && Cert.shiftDetOk t && Cert.auglOk g
 
 end Rustemo
